@@ -317,7 +317,7 @@ def c17_script(ctx, aid, oi, table, op):
     rs = ctx.w.mods["rsync"]
     s = ctx.s
     cur = s.current
-    base = os.path.join("/dev/shm", case["scratch"])
+    base = os.path.join("/dev/shm", case["scratch"] + "-" + os.environ.get("VERIF_RUN_TAG", "00000000"))
     shutil.rmtree(base, ignore_errors=True)
     srcdir = os.path.join(base, "src")
     outside = os.path.join(base, "outside")
